@@ -140,7 +140,10 @@ def CEILING(
     number = float(number)
     significance = float(significance)
 
-    ceiling = significance * math.ceil(number / significance)
+    try:
+        ceiling = significance * math.ceil(number / significance)
+    except OverflowError:
+        raise xlerrors.NumExcelError('number / significance is too large')
 
     # If number is an exact multiple of significance, no rounding occurs
     if (number % significance) == 0:
@@ -300,7 +303,10 @@ def FLOOR(
     if significance == 0:
         raise xlerrors.DivZeroExcelError()
 
-    return significance * math.floor(number / significance)
+    try:
+        return significance * math.floor(number / significance)
+    except OverflowError:
+        raise xlerrors.NumExcelError('number / significance is too large')
 
 
 @xl.register()
